@@ -81,8 +81,8 @@ Definition op_ok (semantic : bool) (cat cls : string) : bool :=
 Definition all_ops : list (string * string) :=
   flat_map (fun c => map (fun cls => (fst c, cls)) (snd c)) language_ops.
 
-(* operators for which the executed semantics deviates on the unchanged tree (DESIGN 12 #5): and / or *)
-Definition sem_deviating : list string := ["And"; "Or"].
+(* operators for which the executed semantics deviates (none since fix 25c1989; kept for the statement's shape) *)
+Definition sem_deviating : list string := [].
 
 Definition ops_table_ok : bool :=
   forallb (fun p => op_ok (negb (mem_str (snd p) sem_deviating)) (fst p) (snd p)) all_ops
